@@ -78,9 +78,9 @@ def gen_call(g, cfg, api, seed, mid=None):
     elif api == "gen.dag_avg_deg":
         p = g.randint(2, max(2, pmax + 3)) if not huge else p
         lo = G.r2(g, 0.1, 2)
-        rec["args"] = {"p": p, "k": G.r2(g, 0.5, min(3.0, p - 1)), "w_min": lo,
-                       "w_max": round(lo + G.r2(g, 0, 2), 2), "return_ordering": g.random() < 0.5,
-                       "debug": g.random() < 0.1}
+        rec["args"] = {"p": p, "k": g.choice([0, G.r2(g, 0.5, min(3.0, p - 1)), G.r2(g, 0.5, min(3.0, p - 1)), p - 1]),
+                       "w_min": lo, "w_max": lo if g.random() < 0.15 else round(lo + G.r2(g, 0, 2), 2),
+                       "return_ordering": g.random() < 0.5, "debug": g.random() < 0.1}
     elif api == "gen.dag_full":
         p = g.randint(1, pmax + 3) if not huge else p
         lo = G.r2(g, 0.1, 2)
@@ -95,6 +95,10 @@ def gen_call(g, cfg, api, seed, mid=None):
             lo = g.randint(0, 2)
             size = [lo, lo + g.randint(0, 2)]
         K = g.randint(1, 6)
+        if not replace and g.random() < 0.3:      # exactly at the feasibility limit
+            size = g.randint(1, 3)
+            K = max(1, min(6, p // size))
+            p = size * K if g.random() < 0.7 else p
         rec["args"] = {"p": p, "K": K, "size": size, "replace": replace}
     elif api == "utils.split_data":
         e = g.randint(1, 3) if not huge else g.choice([1, 9, 17])
